@@ -427,7 +427,9 @@ def _build(desc):
             api('pastify', spec.pastify)
         return spec
     d0 = dict((k, v) for k, v in desc.items() if k not in ('prior', 'unit', 'sampling', 'sampling_omit_unit', 'sampling_first'))
-    if any(prior.get(k) is not None for k in ('unit', 'sampling', 'spec', 'io')):
+    if any(prior.get(k) is not None for k in ('unit', 'sampling', 'spec', 'io')) or desc.get('unit') or desc.get('sampling'):
+        # (the second condition: the FIRST configuration is the library default and the final one is not - the object is
+        #  going to be re-configured all the same; found as a false alarm of C08 at VERIF_SEED 0 run 1904, DESIGN 8.2)
         d0['_keep_notation'] = True    # (the unit-notation environments never re-write an object that is going to be re-configured;
         #                                 an object with a plain history - early reset, earlier logs - is re-written like a fresh one)
     for k in ('unit', 'sampling'):
